@@ -35,6 +35,7 @@ type Ev struct {
 	Payload  []byte `json:"payload,omitempty"`   // data: declared payload
 	Major    byte   `json:"major,omitempty"`
 	Minor    byte   `json:"minor,omitempty"`
+	NameDenied bool `json:"name_denied,omitempty"` // ta: the client-name policy of the gateway refuses the name
 	// MayPass: a malformed packet that the gateway may also legitimately accept as its step
 	MayPass bool `json:"may_pass,omitempty"`
 }
@@ -272,6 +273,10 @@ func step(cfg Cfg, s state, e Ev, idx int, resps []tsgu.Resp) []state {
 	case "ta":
 		if s.phase != PTunnel {
 			refuse(0)
+			break
+		}
+		if e.NameDenied && e.WF {
+			refuse(0) // the name policy says no: some non-zero status, then the end
 			break
 		}
 		succeed(PAuthorized, nil)
